@@ -539,6 +539,10 @@ func extractAddressInfos(pkScript []byte) (scriptClass txscript.ScriptClass, rec
 		recipient = std.EncodeAddress()
 		staking = addrs[0].EncodeAddress()
 	case txscript.BindingScriptHashTy:
+		if len(addrs) < 2 {
+			// the binding target could not be decoded
+			return 0, "", "", "", 0, fmt.Errorf("invalid binding target in output script")
+		}
 		targetType := "MASS"
 		targetSize := 0
 		if len(addrs[1].ScriptAddress()) == 22 {
